@@ -375,11 +375,18 @@ class HookEval:
         self.probes: list[tuple[tuple, str]] = []   # (path, key) probed
         self.iterated_mapping: list[str] = []
         self.imprecise = False      # a test was approximated as "either outcome" (whole-value test)
+        self.boundvals: dict = {}      # parameters bound by functools.partial
         if isinstance(fn, (ast.FunctionDef, ast.Lambda)):
-            if len(fn.args.args) != 2:
+            bound = list(getattr(closure, "bound", ()) or ())
+            bound_kw = dict(getattr(closure, "bound_kw", {}) or {})
+            names = [a.arg for a in fn.args.args]
+            for nm, v in zip(names, bound):
+                self.boundvals[nm] = v
+            self.boundvals.update(bound_kw)
+            rest = [nm for nm in names[len(bound):] if nm not in bound_kw]
+            if len(rest) != 2:
                 raise AnalysisError(f"{rel}: hook {self.name} does not take (object, type)")
-            self.param = fn.args.args[0].arg
-            self.tparam = fn.args.args[1].arg
+            self.param, self.tparam = rest
         else:
             self.param = "object_"
             self.tparam = "_"
@@ -388,6 +395,8 @@ class HookEval:
         # names bound to folded VALUES (strings, type objects, tables) by helper inlining / loop unrolling
         self.valenv: list[dict] = []
         self.localvals: dict = {}      # locals of the hook bound to folded values
+        self.localexprs: dict = {}     # locals bound to an input-dependent type expression (`T = A if "k" in x else B`)
+        self.conv_aliases: set = set()  # local aliases of <converter>.structure
         self._synth: dict = {}
 
     @property
@@ -404,6 +413,8 @@ class HookEval:
                 return frame[name]
         if name in self.localvals:
             return self.localvals[name]
+        if name in self.boundvals:
+            return self.boundvals[name]
         c = self.closure
         if c is None:
             return self._NOVALUE
@@ -427,6 +438,7 @@ class HookEval:
             return self._NOVALUE
         from .microeval import Raised
         env = {"__parent__": c.env}
+        env.update(self.boundvals)
         env.update(self.localvals)
         for frame in self.valenv:
             env.update(frame)
@@ -460,6 +472,18 @@ class HookEval:
                     return self.sh.types.resolve(value_to_ty(self.sh.types, v).ty)
             raise
 
+    def _type_in_world(self, node, w, extra):
+        """structure target that may depend on the input through a conditional expression (directly or via a local)"""
+        if isinstance(node, ast.Name) and node.id in self.localexprs:
+            expr, ex = self.localexprs[node.id]
+            return self._type_in_world(expr, w, {**ex, **(extra or {})})
+        if isinstance(node, ast.IfExp):
+            r = self._decide(node.test, w, extra)
+            if isinstance(r, tuple):
+                raise AnalysisError(f"{self.rel}:{node.lineno}: the test choosing a structure target raises in {self.name}: {r[1]}")
+            return self._type_in_world(node.body if r else node.orelse, w, extra)
+        return self.target_type(node)
+
     # ---------------------------------------------------------------- access paths
     def path_of(self, node, extra: dict | None = None):
         """object_ | X[0] | X["k"] | X.get("k")  ->  tuple path, or None."""
@@ -472,6 +496,11 @@ class HookEval:
             if node.id in self.locals:
                 return self.locals[node.id]
             return None
+        if isinstance(node, ast.NamedExpr) and isinstance(node.target, ast.Name):
+            p = self.path_of(node.value, extra)
+            if p is not None:
+                self.locals[node.target.id] = p          # `(kind := object_["kind"]) == ...`
+            return p
         if isinstance(node, ast.Subscript):
             base = self.path_of(node.value, extra)
             if base is None:
@@ -504,6 +533,8 @@ class HookEval:
         returns the marker ('error', reason)."""
         if path in w.alt:
             return w.alt[path]
+        if not path:
+            raise AnalysisError(f"{self.rel}: the value of the hook's input is not fixed in this world ({self.name})")
         base = self.value_at(w, path[:-1])
         if isinstance(base, tuple) and base and base[0] == "error":
             return base
@@ -1078,6 +1109,8 @@ class HookEval:
             raise AnalysisError("synthetic")
         self.locals = {}
         self.localvals = {}
+        self.localexprs = {}
+        self.conv_aliases = set()
         r = self._exec_block(fn.body, w)
         if r is None:
             return Leaf("fallthrough", node=fn)
@@ -1115,6 +1148,9 @@ class HookEval:
                 if p is not None:
                     self.locals[st.targets[0].id] = p
                     continue
+                if dotted(st.value) == f"{self.conv}.structure":
+                    self.conv_aliases.add(st.targets[0].id)       # `structure = converter.structure`
+                    continue
                 # a local bound to something that does not depend on the input (a key table, a type): folded
                 if not any(self.path_of(n_, extra) is not None for n_ in ast.walk(st.value)
                            if isinstance(n_, (ast.Name, ast.Subscript, ast.Call))):
@@ -1122,6 +1158,10 @@ class HookEval:
                     if v is not self._NOVALUE:
                         self.localvals[st.targets[0].id] = v
                         continue
+                if isinstance(st.value, ast.IfExp):
+                    # `item_type = A if <test on the input> else B`: resolved where it is used as a structure target
+                    self.localexprs[st.targets[0].id] = (st.value, dict(extra or {}))
+                    continue
             if isinstance(st, ast.Try):
                 # `try: return A  except Exception: return B`: what the hook returns depends on whether A raises for
                 # the value at hand; both leaves are kept and the judge decides (sites.judge, leaf kind "try")
@@ -1222,13 +1262,14 @@ class HookEval:
                 p = self.path_of(node.args[0], extra)
                 if p is not None:
                     return Leaf("coerce", node=node, path=p, to=d)
-            if d == f"{self.conv}.structure" and len(node.args) == 2 and not node.keywords:
+            if (d == f"{self.conv}.structure" or (isinstance(node.func, ast.Name) and node.func.id in self.conv_aliases)) \
+                    and len(node.args) == 2 and not node.keywords:
                 p = self.path_of(node.args[0], extra)
                 if p is None:
                     raise AnalysisError(f"{self.rel}:{node.lineno}: structure() of a non-path in {self.name}")
                 if self._is_tparam(node.args[1]):
                     return Leaf("structure_self", node=node, path=p)
-                return Leaf("structure", node=node, path=p, ty=self.target_type(node.args[1]))
+                return Leaf("structure", node=node, path=p, ty=self._type_in_world(node.args[1], w, extra))
             if d and d.endswith(".structure") and d != f"{self.conv}.structure":
                 return Leaf("foreign_converter", node=node, what=d)
             # helper function of the package applied to a path: inline it
@@ -1290,7 +1331,10 @@ class HookEval:
             if isinstance(g.target, ast.Name) and not g.is_async:
                 p = self.path_of(g.iter, extra)
                 if p is not None:
-                    return Leaf("each", node=node, path=p, var=g.target.id, elt=node.elt, ifs=g.ifs)
+                    # the element expression is evaluated later (per element alternative): it keeps the value
+                    # environment of the place it was written in (helper parameters, unrolled loop variables)
+                    return Leaf("each", node=node, path=p, var=g.target.id, elt=node.elt, ifs=g.ifs,
+                                frames=[dict(f) for f in self.valenv], extra=dict(extra or {}))
         raise AnalysisError(f"{self.rel}:{getattr(node, 'lineno', '?')}: unsupported return expression in "
                             f"{self.name}: {ast.unparse(node)[:80]}")
 
